@@ -169,6 +169,9 @@ def _same(a: T.Any, b: T.Any) -> bool:
 def _cmp(op: ast.cmpop, a: T.Any, b: T.Any) -> T.Any:
     if a is UNKNOWN or b is UNKNOWN:
         return UNKNOWN
+    if isinstance(op, (ast.Is, ast.IsNot)) and not any(x is None or isinstance(x, bool) for x in (a, b)) \
+            and all(isinstance(x, (int, float, bytes, str, tuple)) for x in (a, b)):
+        return UNKNOWN      # identity of two ordinary values is an interpreter accident (small-int cache, interning): not `==`
     if isinstance(op, (ast.Eq, ast.Is)):
         return _eq(a, b)
     if isinstance(op, (ast.NotEq, ast.IsNot)):
